@@ -229,7 +229,7 @@ def _case(spec):
 
 def run(ctx):
     cli = runner.build_cli()
-    n = ctx.pick(12, 800)
+    n = ctx.pick(12, 250)
     specs = []
     for proj in cc.checked_in_projects():
         specs.append({"kind": "checked-in", "name": proj["name"], "cli": cli, "root": os.path.join(ctx.work, "c14-ci-" + proj["name"])})
